@@ -361,6 +361,10 @@ Definition run_words (ws : list string) : string :=
   | ["keytag1"; m] => "OK " ++ string_of_Z (key_tag_alg1 (z_of_string m))
   | ["dsenc"; kt; a; d; dg] => "OK " ++ hex_of_bytes (enc_ds (z_of_string kt) (z_of_string a) (z_of_string d) (hex_or_empty dg))
   | ["mxenc"; pref; name] => show_opt (enc_mx (z_of_string pref) (hexlist_of_string name))
+  | ["mxdec"; h] =>
+      match dec_mx (hex_or_empty h) with
+      | Some (p, ls) => "OK " ++ string_of_Z p ++ " " ++ show_names ls
+      | None => "NONE" end
   | ["nameenc"; name] => show_opt (enc_labels (hexlist_of_string name))
   | ["txtenc"; h] => show_opt (enc_txt (hex_or_empty h))
   | ["rrsigenc"; ty; alg; labels; ttl; ex; inc; kt; name; sig] =>
